@@ -598,8 +598,7 @@ def _propagate_pure(fn):
             {x.arg for f_ in ast.walk(fn) if isinstance(f_, _FUNCS) for x in (f_.args.vararg, f_.args.kwarg) if x}
         for owner, fld in [(o, f_) for n in ast.walk(fn) for o, f_ in _bodies(n)]:
             stmts = getattr(owner, fld)
-            if isinstance(owner, ast.Try) and fld == "body":
-                continue  # a lookup made under a handler stays under it
+            under_try = isinstance(owner, ast.Try) and fld == "body"  # a lookup made under a handler stays under it: every read must be under it too
             for i, s in enumerate(stmts):
                 if not (isinstance(s, ast.Assign) and len(s.targets) == 1 and isinstance(s.targets[0], ast.Name)):
                     continue
@@ -619,6 +618,10 @@ def _propagate_pure(fn):
                 reads = [n for n in ast.walk(fn) if isinstance(n, ast.Name) and n.id == x and isinstance(n.ctx, ast.Load)]
                 if not reads or not all(order[id(n)] > here for n in reads):
                     continue
+                if under_try:
+                    inside = {id(n) for t in stmts for n in ast.walk(t)}
+                    if not all(id(n) in inside for n in reads):
+                        continue
                 for n in reads:
                     _replace_node(fn, n, copy.deepcopy(s.value))
                 del stmts[i]
@@ -675,6 +678,22 @@ def _drop_tail_returns(fn):
 
     if isinstance(fn, _FUNCS) and not any(isinstance(x, (ast.Yield, ast.YieldFrom)) for x in ast.walk(fn)):
         tail(fn.body)
+
+    def loop_tail(stmts):
+        # a bare `continue` that ends an iteration anyway
+        while stmts and isinstance(stmts[-1], ast.Continue):
+            stmts.pop()
+        if stmts and isinstance(stmts[-1], ast.If):
+            loop_tail(stmts[-1].body)
+            loop_tail(stmts[-1].orelse)
+            if not stmts[-1].body:
+                stmts[-1].body = [ast.Pass()]
+        if not stmts:
+            stmts.append(ast.Pass())
+
+    for n in ast.walk(fn):
+        if isinstance(n, (ast.For, ast.AsyncFor, ast.While)):
+            loop_tail(n.body)
     for n in ast.walk(fn):
         if isinstance(n, ast.If) and n.orelse and all(isinstance(b, ast.Pass) for b in n.body):
             n.test = n.test.operand if isinstance(n.test, ast.UnaryOp) and isinstance(n.test.op, ast.Not) else ast.UnaryOp(op=ast.Not(), operand=n.test)
@@ -701,6 +720,10 @@ def _calls_style(fn, signatures: Dict[str, List[str]]):
                     and len(a.value.args) == 1 and not a.value.keywords:
                 a.value = a.value.args[0]
         name = n.func.id if isinstance(n.func, ast.Name) else None
+        dfl = (signatures.get("__defaults__") or {}).get(name) if name else None
+        if dfl:
+            # a keyword that spells out the callee's own constant default says nothing
+            n.keywords = [k for k in n.keywords if not (k.arg in dfl and isinstance(k.value, ast.Constant) and ast.unparse(k.value) == dfl[k.arg])]
         params = signatures.get(name) if name else None
         if not params or any(isinstance(a, ast.Starred) for a in n.args):
             continue
@@ -821,8 +844,10 @@ def _inline_helpers(fn, helpers: Dict[str, ast.AST], in_class: bool):
         g = copy.deepcopy(h)
         g.decorator_list = []
         _strip(g)
-        _expand_ifexp(g)
-        _guards(g)
+        if not (len(g.body) == 1 and isinstance(g.body[0], ast.Return)):
+            # (a single `return E` keeps E as an expression, exactly as when the call is replaced inside a larger expression)
+            _expand_ifexp(g)
+            _guards(g)
         if not _tail_returns_only(g.body):
             return None
         assigned = {n.id for n in ast.walk(g) if isinstance(n, ast.Name) and isinstance(n.ctx, ast.Store)}
@@ -955,7 +980,17 @@ def _inline_helpers(fn, helpers: Dict[str, ast.AST], in_class: bool):
                         impure = [p for p, a in m.items() if not is_pure(a) and any(isinstance(n, ast.Name) and n.id == p for n in ast.walk(e))]
                         anchor = [n for n in ast.walk(s) if isinstance(n, ast.Await) and n.value is c][0] if id(c) in awaited_calls else c
                         ok = not impure or _early(s, anchor)
-                        if ok and not any(isinstance(x, ast.Name) and isinstance(x.ctx, ast.Store) for x in ast.walk(e)):
+                        # names bound inside e are comprehension variables (scoped to it): they get fresh names, nothing else may be bound
+                        comp_targets = {x.id for c_ in ast.walk(e) if isinstance(c_, ast.comprehension) for x in ast.walk(c_.target) if isinstance(x, ast.Name)}
+                        stores = {x.id for x in ast.walk(e) if isinstance(x, ast.Name) and isinstance(x.ctx, ast.Store)}
+                        if comp_targets and stores <= comp_targets and not (comp_targets & set(m)):
+                            kk2 = next(counter)
+                            e = copy.deepcopy(e)
+                            for x in ast.walk(e):
+                                if isinstance(x, ast.Name) and x.id in comp_targets:
+                                    x.id = f"_h{kk2}_{x.id}"
+                            stores = set()
+                        if ok and not stores:
                             if impure:
                                 # the arguments are evaluated, in order, before the body: bind the impure ones first
                                 kk = next(counter)
@@ -1302,6 +1337,7 @@ def normal_form(fn, signatures: Optional[Dict[str, List[str]]] = None, helpers: 
         _search_idioms(g)
         _nnf(g)
         _keyerror_to_membership(g)
+        _propagate_pure(g)
         _expand_ifexp(g)
         _split_or_guards(g)
         _guards(g)
@@ -1327,6 +1363,12 @@ def normal_form(fn, signatures: Optional[Dict[str, List[str]]] = None, helpers: 
         _simplify_tests(g)
         if ast.dump(g) == before:
             break
+    if helpers:
+        for name_, h_ in list(helpers.items()):
+            # a local function whose every call was replaced is dead code
+            for st_ in list(g.body):
+                if isinstance(st_, _FUNCS) and st_.name == name_ and not any(isinstance(x, ast.Name) and x.id == name_ for x in ast.walk(g) if x is not st_):
+                    g.body.remove(st_)
     _split_webs(g)
     _split_loop_vars(g)
     ast.fix_missing_locations(g)
